@@ -54,6 +54,7 @@ func checkC02(c *Ctx) {
 	c.Rule("C02.disjoint", "in each of the 8 parser configurations (as evaluated from riscv.instructionSet) the implementation's patterns are pairwise disjoint")
 	c.Rule("C02.accept", "in each configuration accept-set(implementation) == accept-set(reference) for all 2^32 words, decided by cube sharp in both directions")
 	c.Rule("C02.name", "wherever an implementation pattern intersects a reference pattern the mnemonics are equal")
+	c.Rule("C02.own", "the matcher of every Parser that NewParser returns is the one built in that call from instructionSet(v, exts); a matcher taken from package-level state (a cache) is accepted only when it was stored by NewParser itself under a key that, walked for both variants and every ordered selection of extensions, is different for different configurations")
 	c.Rule("C02.len", "Parser.Parse rejects inputs shorter than instructionLen before matching; instructionLen equals the longest pattern; newInstruction reads only b[:instructionLen]; NewParser feeds instructionSet(v, exts) to the matcher")
 	c.Assume = append(c.Assume,
 		"/verif/spec/rv_encodings.json states the RISC-V encodings of the property's reference (written from the unprivileged ISA manual)",
@@ -319,6 +320,7 @@ func checkC02(c *Ctx) {
 		}
 	}
 	c.RequireCount("C02.len NewMatcher call", nNM, 1)
+	checkParserOwnsMatcher(c, newParser)
 }
 
 func sameEntrySet(a, b []*absint.Entry) bool {
